@@ -11,7 +11,7 @@ CHECKS = {
  "C14": ("updateByte = bitwise CRC-16/ARC step proved in Coq for all 2^16 x 2^8 (state, byte) pairs over the table regenerated from the source; checksum/partition/reset/residue theorems by induction for all byte strings; model tied to the code by row-wise correspondence with the real updateByte and the streaming API",
          "Coq kernel + vm_compute; no axioms (Print Assumptions: closed under the global context); translator vh gen (CrcTable via hook); extraction ExtrOcamlBasic; Go integer semantics modelled with explicit masks",
          "Rocq proof (XOR-linearity + finite vm_compute) with translator-regenerated table and differential correspondence"),
- "C15": ("profile_wf checker evaluated by vm_compute on the profile tables, struct layouts and constructor values regenerated from the compiled library on every run, lifted by generic soundness lemmas to the forall (message, field) statements; independently re-evaluated on the implementation by reflection and by one single-field stream per entry and byte order through the real Decode in lock step with the model",
+ "C15": ("profile_wf checker evaluated by vm_compute on the profile tables, struct layouts and constructor values regenerated from the compiled library on every run, lifted by generic soundness lemmas to the forall (message, field) statements; tables_never_written (the tables are read-only for all code reachable from the entry points, from the regenerated shared-state analysis); independently re-evaluated on the implementation by reflection and by one single-field stream per entry and byte order through the real Decode in lock step with the model",
          "Coq kernel + vm_compute; no axioms; translator vh gen (reflection through the verif hooks); SDK field-name clause is a regression oracle against a snapshot (partial)",
          "Rocq proof by reflection (boolean checker + soundness lemmas) over translator-regenerated tables"),
  "C03": ("route_spec/dropped_no_effect/add_no_panic proved by induction over arbitrary message sequences for every valid file type, from routing_wf (vm_compute comparison of the routing observed by probing the real add methods with what the container struct types prescribe); init_exact over all 256 values; accessor_exact; spec re-evaluated on the implementation through direct add sequences and lock-step decoding",
@@ -32,9 +32,9 @@ CHECKS = {
  "C16": ("finalization-only-adds-lists, sortedness/permutation and counting lemmas proved; opts_invisible PARTIAL: every stream decoded under all 8 option sets and compared; counts compared with the extracted reference semantics, bounded on part-way failure",
          "Coq kernel; no axioms; hand-written decoder model tied by lock-step correspondence under all option sets",
          "Rocq proof (Sorted/Permutation lemmas) + 8-way differential decoding + reference semantics oracle"),
- "C17": ("coordinate validity/Semicircles/Degrees-exact/NaN-iff/degree round trip (exact)/printed form within 2e-5 proved over a Flocq binary64/binary32 model for all 2^32 semicircle values; time bijection, whole seconds and IsBaseTime-only-at-zero proved for all 2^32 second counts in pure Z arithmetic; constants and comparison operators regenerated from latlng.go/time.go; exhaustive spec oracle on the implementation and bit-exact correspondence with the extracted model",
+ "C17": ("coordinate validity/Semicircles/Degrees-exact/NaN-iff/degree round trip (exact)/printed form within 2e-5 proved over a Flocq binary64/binary32 model for all 2^32 semicircle values; time bijection, whole seconds and IsBaseTime-only-at-zero proved for all 2^32 second counts in pure Z arithmetic; latlng.go and time.go TRANSLATED function by function into Gallina on every run and proved equal to the model on every argument (latlng_translated, time_translated), package constants regenerated; exhaustive spec oracle on the implementation and bit-exact correspondence with the extracted model",
          "Coq kernel + vm_compute; coordinate theorems about Degrees/round trip/printed form depend on the standard-library axioms ClassicalDedekindReals.sig_forall_dec, ClassicalDedekindReals.sig_not_dec, FunctionalExtensionality.functional_extensionality_dep, Classical_Prop.classic (through Flocq/Reals); time half axiom-free; strconv.FormatFloat is a hand model validated by correspondence; known finding lat_plus90",
-         "Rocq proof over Flocq IEEE-754 model + translator-regenerated constants + exhaustive differential correspondence"),
+         "Rocq proof over Flocq IEEE-754 model + source-to-Gallina translation of latlng.go/time.go proved equal to the model + exhaustive differential correspondence"),
  "C19": ("PARTIAL: gen_bijection/ftype_spec/gen_sheet_spec proved for a Gallina model of fitgen's scanner, parser, transform and struct/lookup generation over raw sheet grids; exit status, byte-identical reruns, compilation with the support closure and the SDK version string are run-time tests through the real command on the 5 bundled workbooks and sampled dependency-closed product profiles; fitgen's real output is compared with the extracted model on rows read by an independent xlsx reader and judged by the extracted spec",
          "Coq kernel; no axioms; partial: text layout, go/printer, xlsx parsing and the Go compiler are not modelled (tested at run time); the unused-import defect of degenerate profiles was repaired (fix 9d03c31)",
          "Rocq proof (partial) of the row->entry mapping + real-command differential/metamorphic testing"),
